@@ -171,6 +171,12 @@ func (fc *FuncCtx) exec(st *State, s ast.Stmt) *State {
 					return deadState()
 				}
 			}
+			if fn, _ := fc.calleeOf(call); fn != nil && fc.w.NoReturn[fn.FullName()] {
+				for _, a := range call.Args {
+					fc.eval(st, a)
+				}
+				return deadState()
+			}
 			fc.evalCall(st, call)
 			return st
 		}
@@ -292,7 +298,12 @@ func (fc *FuncCtx) exec(st *State, s ast.Stmt) *State {
 		return st
 	case *ast.SendStmt:
 		fc.eval(st, x.Chan)
-		fc.eval(st, x.Value)
+		v := fc.eval(st, x.Value)
+		if ct, ok := fc.typeOf(x.Chan).Underlying().(*types.Chan); ok {
+			v = fc.convertImplicit(st, v, ct.Elem())
+		}
+		fc.chanSend(st, x.Chan, v, x)
+		fc.ghostSend(st, x)
 		return st
 	}
 	fc.fail(s, "unsupported statement %T", s)
@@ -402,8 +413,9 @@ func (fc *FuncCtx) evalMulti(st *State, e ast.Expr, n int) []Term {
 		return fc.evalTypeAssert(st, x, true)
 	case *ast.UnaryExpr:
 		if x.Op == token.ARROW {
-			v := fc.chanRecv(st, x)
-			return []Term{v, {S: fc.freshBool("recvok"), T: tBool}}
+			okb := fc.freshBool("recvok")
+			v := fc.chanRecvOK(st, x, okb)
+			return []Term{v, {S: okb, T: tBool}}
 		}
 	}
 	fc.fail(e, "unsupported multi-value expression")
@@ -585,3 +597,5 @@ func (fc *FuncCtx) execSelect(st *State, x *ast.SelectStmt, label string) *State
 }
 
 func (fc *FuncCtx) ghostEvent(st *State, kind string, i int, n ast.Node) {}
+
+func (fc *FuncCtx) ghostSend(st *State, n *ast.SendStmt) {}
